@@ -1520,11 +1520,16 @@ func (f *Frame) varBefore(blk *ssa.BasicBlock, idx int, name string, pos token.P
 			first = false
 		}
 		for i := hi; i >= 0; i-- {
+			if d, isRef := b.Instrs[i].(*ssa.DebugRef); isRef && refMatches(d, obj, name) {
+				if _, isAlloc := d.X.(*ssa.Alloc); !isAlloc {
+					return f.val(d.X, d.X.Type()), true
+				}
+			}
 			v, ok := b.Instrs[i].(ssa.Value)
 			if !ok {
 				continue
 			}
-			match := cands[v]
+			match := cands[v] && !valueOnlyCand(v)
 			if p, ok := v.(*ssa.Phi); ok && !match && p.Comment == name {
 				match = true
 			}
